@@ -86,11 +86,13 @@ pub struct World {
 	pub wire: Vec<Value>,
 	pub poisoned: bool,
 	pub answered_single: Vec<(usize, Value)>,
+	/// responses carry members a response does not have (`method`, `params`, `extra`): a reader ignores them
+	pub extra_members: bool,
 }
 
 impl World {
 	pub fn new(cfg: ClientCfg) -> World {
-		World { mc: MockClient::new(cfg), ops: vec![], subs: Arc::new(parking_lot::Mutex::new(vec![])), nonce: 0, wire: vec![], poisoned: false, answered_single: vec![] }
+		World { mc: MockClient::new(cfg), ops: vec![], subs: Arc::new(parking_lot::Mutex::new(vec![])), nonce: 0, wire: vec![], poisoned: false, answered_single: vec![], extra_members: false }
 	}
 
 	pub fn spawn_call(&mut self) {
@@ -245,6 +247,17 @@ impl World {
 		let (mut body, stamp) = self.payload(op, err);
 		body["jsonrpc"] = json!("2.0");
 		body["id"] = id.clone();
+		if self.extra_members {
+			// (e.g. a server that echoes the method name)
+			match self.nonce % 3 {
+				0 => body["method"] = json!(self.ops[op].methods[0].clone()),
+				1 => {
+					body["method"] = json!("sub_notif");
+					body["params"] = json!({"subscription": 1, "result": 2});
+				}
+				_ => body["extra"] = json!({"method": "x"}),
+			}
+		}
 		self.ops[op].stamped[0] = Some(stamp);
 		self.ops[op].answered_before_poison = !self.poisoned;
 		self.answered_single.push((op, id));
@@ -345,6 +358,10 @@ impl SubCheck for Routing {
 				obs.class("client-built-through-set_rpc_middleware");
 			}
 			*w.mc.shared.default_send_yields.lock() = case.send_yields;
+			w.extra_members = case.send_yields % 2 == 1;
+			if w.extra_members {
+				obs.class("responses-with-unknown-members");
+			}
 			let mut nonfifo = false;
 			let mut interleaved = false;
 			let mut max_outstanding = 0usize;
